@@ -945,7 +945,16 @@ async fn run_c13_async(plan: C13Plan, sched: Sched, record: bool) -> Outcome {
         }
         // what the peer pushed must reach the local side, not sit in a buffering writer while the
         // bridge waits for something else: everything written is flushed before the bridge goes idle
-        if !(l.read_err || l.write_err || l.flush_err || l.shutdown_err) && l.flushed < l.written.len() {
+        // a flush of the local writer that cannot complete holds up the peer-to-local direction
+        // only: what the local side has ready (bytes, its end, an error) is still taken and relayed
+        // as long as there is credit for it
+        if l.flush_stuck {
+            o.probe("fault:local-flush-stuck", 1);
+            if l.read_ready && !(l.read_err || l.write_err || l.flush_err || l.shutdown_err) && !peer_reset && a_reset == 0 && pushes_from_a < granted && s.task_end.borrow().is_none() {
+                o.violate("C13:local-side-starved-by-pending-flush", format!("a flush of the local writer is pending for good, the local side has output or its end ready and the bridge has credit ({pushes_from_a} of {granted} used), but it is not read: the local-to-peer direction is not served while the other one waits; {desc}"));
+            }
+        }
+        if !(l.read_err || l.write_err || l.flush_err || l.shutdown_err) && l.flushed < l.written.len() && !l.flush_stuck {
             o.violate("C13:unflushed-local-data", format!("the bridge is idle at quiescence with {} of {} bytes written to the local side never flushed (a buffering local writer would not have delivered them); {desc}", l.written.len() - l.flushed, l.written.len()));
         }
         o.probe("bridge-legitimately-pending", 1);
